@@ -241,9 +241,9 @@ pub fn run(shard: &Shard) -> i32 {
     // (b) random long histories + (c) solver level
     case_loop(shard, u64::MAX, |_i, rng| {
         if rng.chance(2, 3) {
-            let len = if rng.chance(1, 4) { 2000 } else { 200 };
+            let len = if rng.chance(1, 4) { 3000 } else { 200 };
             let h = random_history(rng, len);
-            with_acc(|a| { judge(&h, a, false); a.bump("random_histories", 1); a.bump("random_history_operations", h.len() as u64); });
+            with_acc(|a| { judge(&h, a, false); a.bump("random_histories", 1); a.bump("random_history_operations", h.len() as u64); if len >= 1000 { a.bump("random_histories_of_3000_operations", 1); } });
         } else {
             let p = Profile { depth_free_bias: true, long_arcs_only: rng.chance(1, 3), small: rng.chance(1, 3), medium_share: 1, ..Default::default() };
             let spec = random_spec(rng, &p);
@@ -265,11 +265,15 @@ fn enumerate(alpha: &[Op], h: &mut Vec<Op>, maxlen: usize, a: &mut Acc) {
 pub fn random_history(rng: &mut Rng, len: usize) -> Vec<Op> {
     let mut h = Vec::with_capacity(len);
     let mut push_bias = 3;
+    // small universe (15 keys: many coalescing pushes) or large one (up to 768 keys: heaps of hundreds of entries, deep
+    // bubble-up / bubble-down paths, a recycle bin that grows and shrinks)
+    let (ns, nv, nub) = if len >= 1000 && rng.chance(2, 3) { (*rng.pick(&[40u64, 120, 256]), 60i64, 90i64) } else { (5, 6, 8) };
+    let phase = if ns > 5 { 200 } else { 50 };
     for i in 0..len {
-        if i % 50 == 0 { push_bias = 1 + rng.below(4); }
+        if i % phase == 0 { push_bias = 1 + rng.below(4); }
         let r = rng.below(5);
         if r < push_bias {
-            h.push(Op::Push { s: rng.below(5) as u8, d: rng.below(3) as u8, v: rng.range(0, 6) as i8, ub: rng.range(0, 8) as i8 });
+            h.push(Op::Push { s: rng.below(ns) as u8, d: rng.below(3) as u8, v: rng.range(0, nv) as i8, ub: rng.range(0, nub) as i8 });
         } else if rng.chance(1, 60) { h.push(Op::Clear); } else { h.push(Op::Pop); }
     }
     h
